@@ -14,6 +14,8 @@ import PorepyVerif.C02.Lemmas
 
 namespace PorepyVerif.C02
 
+variable {P : PowFns}
+
 /-! ### parser = direct forward-mode evaluation -/
 
 /-- Node level, ALL operations and ALL pairs of operand kinds: what the parser computes from two
@@ -21,7 +23,7 @@ namespace PorepyVerif.C02
     AdArray's methods as coded (`a-b = a+(-b)`, `b-a = -(a-b)`, `a/b = a*b**(-1)`, `c/a = a**(-1)*c`) —
     is the closed-form forward-mode rule in mathematical operand order, error kinds included. -/
 theorem parseBin_eq_directBin (N : Nat) (op : Op) (l r : Value) :
-    parseBin N op l r = directBin N op l r :=
+    parseBin P N op l r = directBin P N op l r :=
   parseBin_eq_directBin' N op l r
 
 /-- Tree level: for EVERY operator tree and environment (stored vectors of the length of the state),
@@ -34,6 +36,22 @@ theorem parse_eq_direct (deriv : Bool) (e : Env) (hwf : EnvWF e) (t : OpTree) :
 theorem evaluate_eq_direct (deriv : Bool) (e : Env) (hwf : EnvWF e) (t : OpTree) :
     evaluate deriv e t = evaluateDirect deriv e t := by
   simp only [evaluate, evaluateDirect, parse_eq_direct deriv e hwf t]
+
+/-! ### several operators in one `evaluate` call (shared cache of parsed leaves) -/
+
+/-- The cache is transparent: evaluating a list of operators in one call (all parsed with one
+    cache of parsed leaves, then post-processed) is parsing every operator on its own. -/
+theorem evaluate_list_cache_transparent (deriv : Bool) (e : Env) (ts : List OpTree) :
+    evaluateList deriv e ts = (ts.mapM (parse deriv e) >>= fun vs => vs.mapM (finish e.N deriv)) := by
+  simp only [evaluateList]
+  rw [parseListC_eq deriv e ts [] (fun p hp => by cases hp)]
+
+/-- `evaluate([op_1, …, op_k])` returns the list `vs` exactly when evaluating the operators one by one
+    returns `vs` (whatever sub-expressions and leaves the operators share). -/
+theorem evaluate_list_eq_map (deriv : Bool) (e : Env) (ts : List OpTree) (vs : List Value) :
+    evaluateList deriv e ts = .ok vs ↔ ts.mapM (evaluate deriv e) = .ok vs := by
+  rw [evaluate_list_cache_transparent]
+  exact mapM_comp_ok (parse deriv e) (finish e.N deriv) ts vs
 
 /-! ### values with and without derivatives agree -/
 
@@ -305,11 +323,12 @@ theorem const_add_keeps_jacobian (e : Env) (a c : OpTree) (hc : c.noCurrent = tr
         simp only [directAd] at h; cases h
         exact ⟨_, rfl, by simp [jacRows, List.map_map, dAddC, Function.comp_def]⟩
       | vec v =>
-        simp only [directAd, zipAV] at h
-        split at h
-        · cases h
-        · rename_i hl; cases h
-          exact ⟨_, rfl, jacRows_zipWith_left dAddC (fun _ _ => rfl) x v (by simpa using hl)⟩
+        simp only [directAd, bAV] at h
+        cases he : expand x.length v with
+        | none => simp [he] at h
+        | some w =>
+          simp only [he] at h; cases h
+          exact ⟨_, rfl, jacRows_zipWith_left dAddC (fun _ _ => rfl) x w (expand_length he).symm⟩
       | mat m => simp only [directAd] at h; cases h
       | slicer s => simp only [directAd] at h; cases h
       | slicers l => simp only [directAd] at h; cases h
@@ -326,11 +345,12 @@ theorem const_add_keeps_jacobian (e : Env) (a c : OpTree) (hc : c.noCurrent = tr
         simp only [directBin, directSA] at h; cases h
         exact ⟨_, rfl, by simp [jacRows, List.map_map, dCAdd, Function.comp_def]⟩
       | vec v =>
-        simp only [directBin, directVA, zipAV] at h
-        split at h
-        · cases h
-        · rename_i hl; cases h
-          exact ⟨_, rfl, jacRows_zipWith_left (fun u c => dCAdd c u) (fun _ _ => rfl) x v (by simpa using hl)⟩
+        simp only [directBin, directVA, bAV] at h
+        cases he : expand x.length v with
+        | none => simp [he] at h
+        | some w =>
+          simp only [he] at h; cases h
+          exact ⟨_, rfl, jacRows_zipWith_left (fun u c => dCAdd c u) (fun _ _ => rfl) x w (expand_length he).symm⟩
       | mat m => simp only [directBin] at h; cases h
       | slicer s => simp only [directBin, py] at h; cases h
       | slicers l => simp only [directBin] at h; cases h
@@ -341,7 +361,7 @@ theorem const_add_keeps_jacobian (e : Env) (a c : OpTree) (hc : c.noCurrent = tr
 /-- Value level: for a raw python operand `c` (number, array, matrix) and any data value `y`
     (number, vector, matrix, AdArray), `y + c` — which is what `Operator.__radd__` builds — is `c + y`. -/
 theorem directBin_add_comm (N : Nat) (c : Raw) (y : Value) (hy : y.isData = true) :
-    directBin N .add y c.value = directBin N .add c.value y := by
+    directBin P N .add y c.value = directBin P N .add c.value y := by
   cases c with
   | num k =>
     cases y with
@@ -360,11 +380,13 @@ theorem directBin_add_comm (N : Nat) (c : Raw) (y : Value) (hy : y.isData = true
     | vec w => simp only [Raw.value, directBin, vecBin_add_comm]
     | mat m => rfl
     | ad a =>
-      simp only [Raw.value, directBin, directAd, directVA, zipAV]
-      split
-      · rfl
-      · congr 2
-        exact zipWith_congr' a v (fun u k => by simp only [dAddC, dCAdd]; congr 1; grind)
+      simp only [Raw.value, directBin, directAd, directVA, bAV]
+      cases expand a.length v with
+      | none => rfl
+      | some w =>
+        dsimp only
+        congr 2
+        exact zipWith_congr' a w (fun u k => by simp only [dAddC, dCAdd]; congr 1; grind)
     | slicer s => cases hy
     | slicers l => cases hy
   | sp m =>
@@ -383,7 +405,7 @@ theorem directBin_add_comm (N : Nat) (c : Raw) (y : Value) (hy : y.isData = true
 theorem reverse_build (deriv : Bool) (e : Env) (op : Op) (c : Raw) (t t' : OpTree)
     (hb : build (.bin op (.raw c) (.tree t)) = .ok (.tree t'))
     (hd : ∀ y, direct deriv e t = .ok y → y.isData = true) :
-    direct deriv e t' = (direct deriv e t >>= fun y => directBin e.N op c.value y) := by
+    direct deriv e t' = (direct deriv e t >>= fun y => directBin e.P e.N op c.value y) := by
   simp only [build, bind_ok] at hb
   cases op
   · -- `c + x` is built as `x + c`
@@ -404,7 +426,7 @@ theorem reverse_build (deriv : Bool) (e : Env) (op : Op) (c : Raw) (t t' : OpTre
 theorem reverse_build_parse (deriv : Bool) (e : Env) (hwf : EnvWF e) (op : Op) (c : Raw) (t t' : OpTree)
     (hb : build (.bin op (.raw c) (.tree t)) = .ok (.tree t'))
     (hd : ∀ y, direct deriv e t = .ok y → y.isData = true) :
-    parse deriv e t' = (parse deriv e t >>= fun y => directBin e.N op c.value y) := by
+    parse deriv e t' = (parse deriv e t >>= fun y => directBin e.P e.N op c.value y) := by
   rw [parse_eq_direct deriv e hwf, parse_eq_direct deriv e hwf]
   exact reverse_build deriv e op c t t' hb hd
 
@@ -443,7 +465,7 @@ example : (evaluate false env0 (.bin .add md20 (.leaf (.var [[2], [0]] true (-1)
       = some (.vec [9, 5]) := by decide +kernel
 /-- an ill-typed tree: size mismatch raises ValueError in both evaluations -/
 example : parse true env0 (.bin .add v02 (.leaf (.dense [1, 2, 3]))) = .error .valueError := by
-  simp [parse, parseLeaf, parseBin, py, pyAd, adAdd, v02, adRows]
+  simp [parse, parseLeaf, parseBin, py, pyAd, adAdd, v02, adRows, expand]
 /-- hypotheses of `shiftTime_no_current`, `const_add_keeps_jacobian`, `reverse_build`, `evaluate_val_noderiv` are satisfiable -/
 example : v02.indexOk = true ∧ md20.indexOk = true := by decide
 example : (parse true env0 (.bin .add (.leaf (.var [[0, 2]] false 0 (-1))) v02)).toOption
@@ -454,8 +476,27 @@ example : (direct true env0 v02).toOption.map Value.isData = some true := by dec
 example : (evaluate true env0 (.bin .sub (.leaf (.scalar 1)) v02)).toOption = some (.ad [⟨0, [-1, 0, 0]⟩, ⟨-2, [0, 0, -1]⟩])
     ∧ (evaluate false env0 (.bin .sub (.leaf (.scalar 1)) v02)).toOption = some (.vec [0, -2]) := by decide +kernel
 /-- a wrapped function `f(x, y) = x*y - 2` of a current and a previous variable -/
-example : (evaluate true env0 (.func2 (.sub (.mul .x .y) (.const 2)) v02 (.leaf (.var [[0, 2]] false 0 (-1))))).toOption
+example : (evaluate true env0 (.func2 (.poly (.sub (.mul .x .y) (.const 2))) v02 (.leaf (.var [[0, 2]] false 0 (-1))))).toOption
       = some (.ad [⟨8, [10, 0, 0]⟩, ⟨88, [0, 0, 30]⟩]) := by decide +kernel
+/-- a list sharing the leaf `dense [5, 6]` and the variable -/
+example : (evaluateList true env0 [.bin .add v02 (.leaf (.dense [5, 6])), .bin .mul (.leaf (.dense [5, 6])) v02]).toOption
+      = some [.ad [⟨6, [1, 0, 0]⟩, ⟨9, [0, 0, 1]⟩], .ad [⟨5, [5, 0, 0]⟩, ⟨18, [0, 0, 6]⟩]] := by decide +kernel
+/-- broadcasting of a length-1 array: `v + [10]`, `[10] - v`, `v ** [2]` -/
+example : (evaluate true env0 (.bin .sub (.leaf (.dense [10])) v02)).toOption
+      = some (.ad [⟨9, [-1, 0, 0]⟩, ⟨7, [0, 0, -1]⟩]) := by decide +kernel
+example : (evaluate true env0 (.bin .pow v02 (.leaf (.dense [2])))).toOption
+      = some (.ad [⟨1, [2, 0, 0]⟩, ⟨9, [0, 0, 6]⟩]) := by decide +kernel
+/-- real powers through an interpretation of `pow` / `log` (here an arbitrary rational one): `2 ** v`, `v ** (1/2)` -/
+def P1 : PowFns := ⟨fun x c => x + c, fun x => 2 * x, fun _ _ => true, fun _ => true⟩
+example : (evaluate true { env0 with P := P1 } (.bin .pow (.leaf (.scalar (1/2))) (.bin .add v02 (.leaf (.scalar (1/2)))))).toOption
+      = some (.ad [⟨2, [2, 0, 0]⟩, ⟨4, [0, 0, 4]⟩]) := by decide +kernel
+example : (evaluate true env0 (.bin .pow (.leaf (.scalar (1/2))) (.bin .add v02 (.leaf (.scalar (1/2)))))).toOption = none := by
+  decide +kernel
+/-- a DiagonalJacobianFunction `g(x, y) = x*y` with multipliers 3 and 1/2: values exact, Jacobian `3 Jx + Jy/2` -/
+example : (evaluate true env0 (.func2 (.diag (.mul .x .y) 3 (some (1/2))) v02 (.bin .mul v02 v02))).toOption
+      = some (.ad [⟨1, [4, 0, 0]⟩, ⟨27, [0, 0, 6]⟩]) := by decide +kernel
+example : (evaluate false env0 (.func2 (.diag (.mul .x .y) 3 (some (1/2))) v02 (.bin .mul v02 v02))).toOption
+      = some (.vec [1, 27]) := by decide +kernel
 example : v02.noCurrent = false ∧ (OpTree.leaf (.var [[0, 2]] false 0 (-1))).noCurrent = true := by decide
 
 end PorepyVerif.C02
